@@ -7,7 +7,11 @@ VARIABLES stage, kind, a, b
 Bits3 == {128, 192, 256}
 
 KeyT(bits, s) == FillT("seeded", bits \div 8, Seed + s)
-PtLensAll == (0..64) \cup {255, 256, 257, 4095, 4096}
+\* the property quantifies over all plaintexts of 0..4096 octets: the thorough tier takes every length, the quick tier every length to 64, every
+\* power of two to 4096 with its neighbours (a buffer of a round size shows at exactly that size) and a stride through the rest
+Pow2s == {128, 256, 512, 1024, 2048, 4096}
+PtLensAll == IF Thorough THEN 0..4096
+             ELSE (0..64) \cup UNION { {q - 17, q - 16, q - 15, q - 1, q, q + 1, q + 15, q + 16} : q \in Pow2s } \cup { 97 * i + (Seed % 97) : i \in 1..41 }
 Det(s) == [mode |-> "det", seed |-> Seed + s, chunk |-> (s % 4) * 5]      \* chunk > 0: the source answers in short reads
 Sys == [mode |-> "system"]
 
@@ -51,7 +55,7 @@ Init == stage = 0 /\ kind = "" /\ a = 0 /\ b = 0
 Next ==
   \/ stage = 0 /\ stage' = 1 /\ kind' \in {"enc", "dec", "key", "hist"} /\ a' \in Bits3 /\ b' = 0
   \/ stage = 1 /\ stage' = 2 /\ UNCHANGED << kind, a >>
-     /\ b' \in CASE kind = "enc" -> { n \in PtLensAll : Thorough \/ n <= 64 \/ a = 256 }
+     /\ b' \in CASE kind = "enc" -> { n \in PtLensAll : n <= 4096 /\ (Thorough \/ n <= 64 \/ a = 128 + 64 * (n % 3)) }
                  [] kind = "dec" -> (0..96) \cup {272, 288, 304, 528, 1040, 4112}      \* (bodies beyond 256 octets: every pad-length octet fits)
                  [] kind = "key" -> {0}
                  [] OTHER -> IF a = 128 THEN 0..7 ELSE {}
